@@ -167,3 +167,38 @@ fn custom_profile_names_are_used_verbatim() {
     }
     clear(); let _ = std::fs::remove_dir_all(d);
 }
+
+/// an environment variable that is SET wins even when its value is empty; and the profile file is `<name>.yml` for
+/// whatever `AsRef<str>` says — dots included (a hand-written ConfigProfile: the derive rejects such names)
+#[derive(Debug, Clone, Copy, PartialEq)]
+enum Dotted { StagingEu, Staging }
+impl AsRef<str> for Dotted { fn as_ref(&self) -> &str { match self { Dotted::StagingEu => "staging.eu", Dotted::Staging => "staging" } } }
+impl std::str::FromStr for Dotted {
+    type Err = String;
+    fn from_str(s: &str) -> Result<Self, String> { match s { "staging.eu" => Ok(Dotted::StagingEu), "staging" => Ok(Dotted::Staging), o => Err(format!("unknown profile {o}")) } }
+}
+impl ConfigProfile for Dotted {}
+#[derive(serde::Deserialize, Debug, PartialEq)]
+#[serde(deny_unknown_fields)]
+struct Banner { banner: String, region: String }
+#[test]
+fn empty_environment_values_and_dotted_profile_names() {
+    let _g = ENV.lock().unwrap_or_else(|e| e.into_inner()); clear();
+    let d = std::env::temp_dir().join(format!("verif-c18-{}-dotted", std::process::id()));
+    std::fs::create_dir_all(&d).unwrap();
+    std::fs::write(d.join("base.yml"), "banner: base-banner\nregion: base-region\n").unwrap();
+    std::fs::write(d.join("staging.yml"), "region: staging-region\n").unwrap();
+    std::fs::write(d.join("staging.eu.yml"), "region: staging.eu-region\n").unwrap();
+    for (profile, region) in [(Dotted::StagingEu, "staging.eu-region"), (Dotted::Staging, "staging-region")] {
+        let c: Banner = ConfigLoader::new().profile(profile).configuration_dir(&d).load().unwrap();
+        assert_eq!(c.region, region, "explicit profile {:?}: {}.yml was not the file that was read", profile, profile.as_ref());
+        unsafe { std::env::set_var("PX_PROFILE", profile.as_ref()); }
+        let c: Banner = ConfigLoader::<Dotted>::new().configuration_dir(&d).load().unwrap();
+        assert_eq!(c.region, region, "PX_PROFILE={}: the file of that name was not the one that was read", profile.as_ref());
+        unsafe { std::env::remove_var("PX_PROFILE"); }
+    }
+    unsafe { std::env::set_var("PX_BANNER", ""); }
+    let c: Banner = ConfigLoader::new().profile(Dotted::Staging).configuration_dir(&d).load().unwrap();
+    assert_eq!(c.banner, "", "PX_BANNER is set (to the empty string): the environment wins over the base file");
+    clear(); let _ = std::fs::remove_dir_all(d);
+}
